@@ -4,7 +4,9 @@ from common import *
 PROPERTY = 'C03'
 HARNESSES = {'c03_simple': dict(src='c02_multi.cc', defines=['NCHILD=2', 'OTEL_INTERNAL_LOG_LEVEL=0'], models=['libc.c', 'cxxrt.c', 'stdstring.c', 'single_threaded.c', 'sched.c'])}
 QUERIES = [dict(name='simple_processor_lock_across_export', harness='c03_simple', entry='h_simple_processor', unwind=6, timeout=600,
-                shape='two OnEnd calls and two Shutdown calls; exporter results symbolic; lock flag observed inside the exporter')]
+                shape='two OnEnd calls and two Shutdown calls; exporter results symbolic; lock flag observed inside the exporter'),
+           dict(name='simple_processor_lifecycle', harness='c03_simple', entry='h_simple_lifecycle', unwind=6, timeout=600,
+                shape='OnEnd, ForceFlush, optional explicit Shutdown, destruction; exporter results symbolic')]
 BOUNDS = ['SimpleSpanProcessor, sequential calls; mutual exclusion of the lock itself under interleavings is C11 (spinlock query)']
 OUTSIDE = ['batch size bounds of BatchSpanProcessor/BatchLogRecordProcessor::Export (the clause that an earlier ForceFlush must not lift the bound): the object-level encoding of the batch processors ran out of memory (12-24 GB) in CBMC even for queue size 1 - measured, DESIGN.md 6 - so this clause is NOT decided; the defect seen by reading (Export takes the whole queue once force_flush_pending_sequence != 0) is recorded in DESIGN.md as unconfirmed by the solver',
            'periodic metric reader', 'SimpleLogRecordProcessor (same shape)']
